@@ -76,7 +76,7 @@ pub fn run_batch(spec: &BatchSpec) -> BatchResult {
             let agg = &agg;
             let harness_err = &harness_err;
             std::thread::Builder::new()
-                .stack_size(256 << 20)
+                .stack_size(16 << 20)
                 .spawn_scoped(sc, move || {
                     warm_up();
                     let mut local = BatchResult::default();
@@ -91,7 +91,11 @@ pub fn run_batch(spec: &BatchSpec) -> BatchResult {
                         }
                         let plan = spec.world.generate(seed, spec.target, spec.thorough);
                         let t_run = Instant::now();
-                        let out = execute_plan(spec.world, &plan, false);
+                        let out = execute_plan_with(spec.world, &plan, false, &|| {
+                            if let Some(inf) = spec.inflight {
+                                inf.running_on_this_thread(w);
+                            }
+                        });
                         let ms = t_run.elapsed().as_millis() as u64;
                         if ms > local.slowest.1 {
                             local.slowest = (seed, ms);
